@@ -354,6 +354,70 @@ def reject(rep, prog, rule):
                         "mismatched images are accepted" % "; ".join("%s is %s" % (s_[:60], v) for s_, v in txt[:4]))
 
 
+def table_ctor(rep, prog, rule):
+    rep.rule(rule, "every table of every MappingTablesGroup is built by MappingTable::new from the "
+             "group's transfer function (the constructor whose per-entry formula C16.shape / C16.mono "
+             "check); a table derived from another table by a depth conversion (into_component keeps the "
+             "high byte: floor(round(f * 65535) / 256) instead of round(f * 255)) rounds twice and is a "
+             "violation, any other construction is undecided")
+    adt = [k for k in prog.adts if k.endswith("color::MappingTablesGroup")]
+    if len(adt) != 1:
+        rep.unk(rule, "MappingTablesGroup|anchor", "", "struct not found")
+        return
+    fields = [x[0] for x in prog.adts[adt[0]]["variants"][0]["fields"]]
+    n = 0
+    for f in sorted(prog.fns.values(), key=lambda x: x.id):
+        sym = None
+        for b, blk in enumerate(f.blocks):
+            if blk["c"]:
+                continue
+            for j, st in enumerate(blk["s"]):
+                if not (st[0] == "a" and st[2][0] == "agg" and st[2][1] == "adt" and st[2][2] == adt[0]):
+                    continue
+                sym = sym or Sym(f)
+                rep.touch(f)
+                for k, op in enumerate(st[2][4]):
+                    n += 1
+                    e = sym.operand(op, (b, j))
+                    s = fmt(e)
+                    name = fields[k] if k < len(fields) else "#%d" % k
+                    key = "%s|%s|%d" % (f.name, name, n)
+                    inner = e
+                    for _ in range(4):
+                        if inner[0] in ("call", "callat") and (inner[2] if inner[0] == "callat" else inner[1]) == "new" \
+                                and "Box" in str(inner[5] if inner[0] == "callat" else inner[4]):
+                            inner = (inner[3] if inner[0] == "callat" else inner[2])[0]
+                        else:
+                            break
+                    full = str(inner[5] if inner[0] == "callat" else inner[4]) if inner[0] in ("call", "callat") else ""
+                    if inner[0] in ("call", "callat") and full.endswith("MappingTable::<Out, SIZE>::new"):
+                        rep.ok(rule, key, st[3], "%s = MappingTable::new(%s)" % (
+                            name, fmt((inner[3] if inner[0] == "callat" else inner[2])[0])[:40]))
+                        continue
+                    # another constructor: does it narrow the entries of another table?
+                    tg = None
+                    if inner[0] in ("call", "callat"):
+                        cands = [g for g in prog.fns.values() if g.kind != "closure" and
+                                 (g.name == full or g.name.endswith("::" + full.rsplit("::", 1)[-1]))
+                                 and g.file == "src/color/mod.rs"]
+                        tg = cands[0] if len(cands) == 1 else None
+                    narrowing = False
+                    if tg is not None:
+                        work = [tg] + list(tg.closures())
+                        for g in work:
+                            for c in g.calls():
+                                if (c.method or c.name.rsplit("::", 1)[-1]) == "into_component":
+                                    narrowing = True
+                    if narrowing:
+                        rep.bad(rule, key + "|derived", st[3],
+                                "%s: the table %s is derived from another table through into_component "
+                                "(%s): entries are floor(round(f * 65535) / 256), not f rounded to the "
+                                "destination depth" % (f.name, name, s[:80]))
+                    else:
+                        rep.unk(rule, key, st[3], "%s is built by %s" % (name, s[:100]))
+    rep.floor(rule, "tables in MappingTablesGroup aggregates", n, 8)
+
+
 def run(rep, tier):
     cfgs = ["x86"] if tier == "quick" else ["x86", "arm", "wasm"]
     for cfg, prog in programs(cfgs):
@@ -362,3 +426,4 @@ def run(rep, tier):
         rep.call(transfer_shape, rep, prog, "C16.shape")
         rep.call(gaps, rep, prog, "C16.gaps")
         rep.call(reject, rep, prog, "C16.reject")
+        rep.call(table_ctor, rep, prog, "C16.table-ctor")
